@@ -1714,9 +1714,7 @@ class Stream(AbstractStream):
             phases = other.phases
             if len(phases) == 1:
                 phase, = phases
-                self.phase = phase
-                self._imol.copy_like(other._imol.get_phase(phase))
-                return
+                imol = other._imol.get_phase(phase)
             else:
                 self.empty()
                 self.phases = other.phases
